@@ -211,6 +211,15 @@ func (p *Pool) sync() {
 	}
 }
 
+// Items is for harness snapshots (pooled objects, oldest first).
+func (p *Pool) Items() []any {
+	if !vrt.On() {
+		return nil
+	}
+	p.sync()
+	return p.items
+}
+
 // Depth is for harness snapshots.
 func (p *Pool) Depth() int {
 	if !vrt.On() {
